@@ -289,11 +289,20 @@ func populateStruct(originalVal reflect.Value, vs []FieldValueTuple, inputIndex 
 		if anyChildSet {
 			setVal.Elem().Set(val)
 			// getUnderlyingKindType stripped every level of pointers;
-			// rebuild the outer ones for pointers to pointers (**T).
-			for t := originalVal.Type(); t.Kind() == reflect.Ptr && t.Elem().Kind() == reflect.Ptr; t = t.Elem() {
-				outer := reflect.New(setVal.Type())
-				outer.Elem().Set(setVal)
-				setVal = outer
+			// rebuild them from the declared types, innermost first, so
+			// that pointers to pointers (**T) and user-defined pointer
+			// types (type P *T; field *P) get values of their own types.
+			var ptrTypes []reflect.Type
+			for t := originalVal.Type(); t.Kind() == reflect.Ptr; t = t.Elem() {
+				ptrTypes = append(ptrTypes, t)
+			}
+			for i := len(ptrTypes) - 1; i >= 0; i-- {
+				if i < len(ptrTypes)-1 {
+					outer := reflect.New(ptrTypes[i].Elem())
+					outer.Elem().Set(setVal)
+					setVal = outer
+				}
+				setVal = setVal.Convert(ptrTypes[i])
 			}
 			originalVal.Set(setVal)
 		}
